@@ -193,7 +193,133 @@ func init() {
 	// registered lazily from registerMoreIntrinsics via registerSnapshotIntrinsics
 }
 
+// deepCopy copies a value following pointers, slices and maps (aliasing inside
+// the copied graph is preserved).
+func (x *Exec) deepCopy(st *State, v Value, seen map[int]int, depth int) Value {
+	if depth > 40 {
+		panic(x.unsupported("deepCopy depth"))
+	}
+	switch u := v.(type) {
+	case PtrV:
+		if u.isNil() {
+			return u
+		}
+		if n, ok := seen[u.obj]; ok {
+			return PtrV{obj: n, path: u.path}
+		}
+		np := st.alloc(nil)
+		seen[u.obj] = np.obj
+		st.heap[np.obj] = x.deepCopy(st, st.heap[u.obj], seen, depth+1)
+		return PtrV{obj: np.obj, path: u.path}
+	case *StructV:
+		f := make([]Value, len(u.f))
+		for i := range f {
+			f[i] = x.deepCopy(st, u.f[i], seen, depth+1)
+		}
+		return &StructV{f: f}
+	case *ArrayV:
+		e := make([]Value, len(u.e))
+		for i := range e {
+			e[i] = x.deepCopy(st, u.e[i], seen, depth+1)
+		}
+		return &ArrayV{e: e}
+	case SliceV:
+		if u.base.isNil() {
+			return u
+		}
+		nb := x.deepCopy(st, u.base, seen, depth+1).(PtrV)
+		return SliceV{base: nb, off: u.off, len: u.len, cap: u.cap}
+	case MapV:
+		if u.obj == 0 {
+			return u
+		}
+		if n, ok := seen[u.obj]; ok {
+			return MapV{obj: n}
+		}
+		mo := st.heap[u.obj].(*MapObj)
+		np := st.alloc(nil)
+		seen[u.obj] = np.obj
+		ne := make([]MapEntry, len(mo.entries))
+		for i, e := range mo.entries {
+			ne[i] = MapEntry{id: e.id, key: x.deepCopy(st, e.key, seen, depth+1), val: x.deepCopy(st, e.val, seen, depth+1)}
+		}
+		st.heap[np.obj] = &MapObj{entries: ne, nextID: mo.nextID}
+		return MapV{obj: np.obj}
+	case IfaceV:
+		if u.typ == nil {
+			return u
+		}
+		return IfaceV{typ: u.typ, val: x.deepCopy(st, u.val, seen, depth+1)}
+	}
+	return v
+}
+
 func registerSnapshotIntrinsics() {
+	// encoding/json abstraction: Marshal(v) keeps a deep snapshot of v and
+	// returns the bytes "json#<k>"; Unmarshal of such bytes into a pointer of
+	// the same type yields a deep copy of the snapshot (decode(encode(v)) = v);
+	// Unmarshal of any other bytes yields an arbitrary outcome: an error, or
+	// success leaving the target untouched.  JSON syntax itself is not explored.
+	intrinsics["encoding/json.Marshal"] = func(x *Exec, st *State, fr *Frame, fn *ssa.Function, a []Value) (Value, int) {
+		iv := a[0].(IfaceV)
+		n := 0
+		if c, ok := st.ghost["$jsoncount"]; ok {
+			n = int(c.(*Term).val)
+		}
+		st.ghost["$jsoncount"] = x.tc.Const(64, uint64(n+1))
+		var snap Value = iv
+		if iv.typ != nil {
+			snap = IfaceV{typ: iv.typ, val: x.deepCopy(st, iv.val, map[int]int{}, 0)}
+		}
+		st.ghost[fmt.Sprintf("$json:%d", n)] = snap
+		bs := x.strConst(fmt.Sprintf("json#%d", n)).alts[0].b
+		arr := &ArrayV{e: make([]Value, len(bs))}
+		for k, b := range bs {
+			arr.e[k] = b
+		}
+		p := st.alloc(arr)
+		return ret1(TupleV{SliceV{base: p, len: len(bs), cap: len(bs)}, IfaceV{}})
+	}
+	intrinsics["encoding/json.Unmarshal"] = func(x *Exec, st *State, fr *Frame, fn *ssa.Function, a []Value) (Value, int) {
+		data := a[0].(SliceV)
+		tgt := a[1].(IfaceV)
+		var sb strings.Builder
+		concrete := true
+		for k := 0; k < data.len; k++ {
+			b := x.load(st, x.sliceElemPtr(data, k)).(*Term)
+			if !b.cst {
+				concrete = false
+				break
+			}
+			sb.WriteByte(byte(b.val))
+		}
+		txt := sb.String()
+		if concrete && strings.HasPrefix(txt, "json#") {
+			if snap, ok := st.ghost["$json:"+txt[5:]]; ok {
+				siv := snap.(IfaceV)
+				pt, isPtr := tgt.typ.Underlying().(*types.Pointer)
+				if isPtr && siv.typ != nil && types.Identical(pt.Elem(), siv.typ) {
+					x.store(st, tgt.val.(PtrV), x.deepCopy(st, siv.val, map[int]int{}, 0))
+					return ret1(IfaceV{})
+				}
+				if isPtr && siv.typ != nil {
+					if sp, ok := siv.typ.Underlying().(*types.Pointer); ok && types.Identical(pt.Elem(), sp.Elem()) {
+						src := siv.val.(PtrV)
+						if !src.isNil() {
+							x.store(st, tgt.val.(PtrV), x.deepCopy(st, x.load(st, src), map[int]int{}, 0))
+							return ret1(IfaceV{})
+						}
+					}
+				}
+			}
+		}
+		// unknown document: error or (abstractly) success without effect
+		if x.chooseN(st, 2, "json.Unmarshal outcome") == 0 {
+			return ret1(x.mkError(st, x.strConst("json: cannot unmarshal (abstract)"), nil))
+		}
+		return ret1(IfaceV{})
+	}
+
 	intrinsics["github.com/AliyunContainerService/terway/pkg/aliyun/client.md5Hash"] = func(x *Exec, st *State, fr *Frame, fn *ssa.Function, a []Value) (Value, int) {
 		iv := a[0].(IfaceV)
 		var snap []snapLeaf
